@@ -90,6 +90,7 @@ McType(op, sub) ==
     [] op \in {"cvwait", "cvwaitfor"} /\ sub = 3 -> "MUTEX_WAIT"
     [] op = "sig" -> "CONDVAR_SIGNAL"               [] op = "bcast" -> "CONDVAR_BROADCAST"
     [] op = "join" -> "ActorJoin"                   [] op = "create" -> "ActorCreate"
+    [] op = "rand" -> "Random"
     [] OTHER -> "?"
 CheckerAgrees(ln, base, new) ==
   LET a == ln.a   op == Cur(P, base, a)   t == McType(op.op, base.sub[a]) IN
@@ -100,13 +101,15 @@ CheckerAgrees(ln, base, new) ==
   /\ (t = "SEM_WAIT" => ln.cobj = op.o /\ ln.ccap = new.val[op.o])
   /\ (t \in {"BARRIER_ASYNC_LOCK", "BARRIER_WAIT", "iSend", "iRecv"} => ln.cobj = op.o)
   /\ (t \in {"ActorJoin", "ActorCreate"} => ln.ctgt = op.o)
+  /\ (t = "Random" => ln.cmax = op.o /\ ln.cval = ln.tc)        \* the outcome the checker believes it chose = the one the kernel applied
   /\ (t = "WaitComm" => LET c == IF op.op = "wait" THEN base.hnd[a][op.o].c ELSE base.cur[a] IN
                           ln.cobj = new.act[c].mb /\ ln.cfrom = new.act[c].src /\ ln.cto = new.act[c].dst)
 
 THandle == /\ Live /\ Ln.e = "handle" /\ Ln.a \in Actors(P)
            /\ \/ st.ph[Ln.a] = "issued"
               \/ MoreSub(P, st, Ln.a) /\ Ln.a \notin pend /\ ~st.susp[Ln.a]      \* next simcall of the same operation (put = isend + wait)
-           /\ LET base == IF st.ph[Ln.a] = "issued" THEN st ELSE NextSub(P, st, Ln.a) IN
+           /\ LET base0 == IF st.ph[Ln.a] = "issued" THEN st ELSE NextSub(P, st, Ln.a)
+                  base  == Chosen(P, base0, Ln.a, Ln.tc) IN                   \* (MC_random: the outcome applied by the kernel)
               /\ (P.gran = "mc" \/ CallOk(Cur(P, base, Ln.a).op, base.sub[Ln.a], Ln.call))
               /\ (P.gran = "mc" => EnabledMC(P, base, Ln.a))        \* C43: the checker only fires enabled transitions
               /\ st' = Handle(P, base, Ln.a)
